@@ -345,4 +345,16 @@ theorem tie_flush_model (C : BlockCipher) (key seen out : Bytes) (we sh : Bool) 
   unfold flushResp
   cases ho : out.isEmpty <;> cases he : ecbEncrypt C key out <;> simp
 
+/-! ### round 5c: the accesses to the shared history (the steps of the interleaving model `Conc`) -/
+
+/-- `incrementCount` TRANSLATED: clock, clearing (a `Range` whose body deletes every key — checked by the extractor) when the
+reset time has passed, `Load`, then atomic add on the loaded cell or a fresh `Store` — the model's `incrAccesses`, for
+both outcomes of both conditions -/
+theorem tie_incrementCountEffects (expired present : Bool) :
+    incrementCountEffects expired present = Conc.incrAccesses expired present := by
+  cases expired <;> cases present <;> rfl
+
+theorem tie_loadCountEffects (present : Bool) : loadCountEffects present = Conc.loadAccesses present := by
+  cases present <;> rfl
+
 end GoZero.C18.TieRest
